@@ -417,8 +417,21 @@ public:
     template< typename ...Images >
     void apply( any_image< Images... >& images )
     {
-        detail::png_type_format_checker format_checker( this->_info._bit_depth
-                                                      , this->_info._color_type
+        // A palette is expanded while the file is read (see read_data): the image
+        // then holds 8-bit rgb, or rgba if the file has transparency information.
+        png_bitdepth::type   bit_depth  = this->_info._bit_depth;
+        png_color_type::type color_type = this->_info._color_type;
+
+        if( color_type == PNG_COLOR_TYPE_PALETTE )
+        {
+            bit_depth  = 8;
+            color_type = png_get_valid( this->get_struct(), this->get_info(), PNG_INFO_tRNS )
+                       ? PNG_COLOR_TYPE_RGB_ALPHA
+                       : PNG_COLOR_TYPE_RGB;
+        }
+
+        detail::png_type_format_checker format_checker( bit_depth
+                                                      , color_type
                                                       );
 
         if( !detail::construct_matched( images
